@@ -40,10 +40,10 @@ claim(
     "DESIGN.md §4, §8 C02",
     "deterministic simulation: seeded fault-sequence search on the byte channel between real encoder/serialiser and the real validating decoder",
     "Seeded search over fault sequences (truncation/EOF at arbitrary points, stored bit/byte corruption, range loss/duplication/insertion/swap, field-aware overwrites, data-unit drop/duplication) applied to real encoder output for seeded small configurations; the real validator reads the result through a simulated file. A minority of runs enumerate every truncation point / single-bit flip / one-byte deletion of a window of one sampled stream, one fault at a time. Every run is one exactly repeatable execution; violations are minimised and replayed in a fresh interpreter (with the worker process's earlier runs when the violation needs them). Sampling: a clean batch is evidence, not proof.",
-    "Assumes the scope bounds (<=64x64 pictures, depths <=4, <=16x16 slices, excursions <=2^72) implemented by wrapping the decoder's level-constraint assertion in the harness process; SimFile stands in for real files; faults are at rest (persistent).",
+    "Assumes the scope bounds (frames of <=2^15 luma samples with each dimension <=2^15, transform depths <=4, <=16x16 slices, excursions <=2^72; nothing else is bounded) implemented by wrapping the decoder's level-constraint assertion in the harness process; SimFile stands in for real files; faults are at rest (persistent).",
 )
 
-_A_NOTE = "Assumes the scope bounds (<=64x64 pictures, depths <=4, <=16x16 slices, excursions <=2^72) enforced in the harness process only; SimFile/SimFS stand in for real files; faults are at rest (every receiver sees the same faulted bytes). Sampling, not proof."
+_A_NOTE = "Assumes the scope bounds (frames of <=2^15 luma samples with each dimension <=2^15, transform depths <=4, <=16x16 slices, excursions <=2^72; nothing else is bounded) enforced in the harness process only; SimFile/SimFS stand in for real files; faults are at rest (every receiver sees the same faulted bytes). Sampling, not proof."
 
 claim(
     "C06",
@@ -74,7 +74,7 @@ claim(
     "A + C (byte channel, simulated file system)",
     "DESIGN.md §4, §6, §8 C25",
     "deterministic simulation: validator command run in-process on a simulated file system over seeded faulted streams; reference = library validator on the same bytes + harness-side raw/JSON reader",
-    "Seeded search over fault sequences, --output patterns and status-line settings; vc2-bitstream-validator main() runs in-process with its open/os (and file_format's open) bound to a simulated file system. Exit status must be 0 iff the library accepts and 2 iff it raises a ConformanceError (never 3 or 1); on 0 exactly one raw/json pair per callback picture, numbered from 0, with contents equal to the decoder output as read by an independent harness reader; on 2 a located, non-empty explanation.",
+    "Seeded search over fault sequences, --output templates (incl. dotted directories, precision-style padding), status-line settings and terminal widths (>= 10 columns); vc2-bitstream-validator main() runs in-process with its open/os (and file_format's open) bound to a simulated file system. Exit status must be 0 iff the library accepts and 2 iff it raises a ConformanceError (never 3 or 1); on 0 exactly one raw/json pair per callback picture, numbered from 0, with contents equal to the decoder output as read by an independent harness reader; on 2 a located, non-empty explanation.",
     _A_NOTE + " Output-side I/O errors (missing directory, full disk) are not injected: the statement quantifies over input files only.",
 )
 claim(
@@ -82,7 +82,7 @@ claim(
     "A + C (byte channel, simulated file system and clock)",
     "DESIGN.md §4, §6, §8 C26",
     "deterministic simulation: viewer run in-process on a simulated file system with a seeded simulated clock over seeded faulted streams and random bytes",
-    "Seeded search over fault sequences and random bytes; vc2-bitstream-viewer main() runs in-process with open/os/time bound to the simulated file system and a simulated clock that jumps forwards, backwards or stands still, and with the status-line interval randomised. Under default display options main() must return 0, 2, 3 or 4, never 255, and raise nothing. A sampled-options arm is observe-only and never judged.",
+    "Seeded search over fault sequences and random bytes; vc2-bitstream-viewer main() runs in-process with open/os/time bound to the simulated file system and a simulated clock that jumps forwards, backwards or stands still, and with the status-line interval randomised. Under default display options main() must return 0, 2, 3 or 4, never 255, and raise nothing. A sampled-options arm is observe-only and never judged. One run in 100 executes the real command in a fresh interpreter under a seeded environment (COLUMNS >= 10, LINES, TERM, LC_ALL). A reader that exceeds a read-call budget proportional to the file length is reported as non-terminating.",
     _A_NOTE + " Scope decided by a pre-scan with the real MonitoredDeserialiser.",
 )
 
@@ -101,7 +101,7 @@ claim(
     "B (data-unit channel, sequence histories)",
     "DESIGN.md §5, §8 C10",
     "deterministic simulation: seeded search over lists of sequences from different configurations; isolation differential against fresh validator instances",
-    "Seeded search over lists of 1-5 sequences drawn from different configurations (profile, version, level family, fragments, field coding, numbering) with an optional non-conformant sequence at a seeded position. Reference: each sequence validated alone by a fresh real validator. The concatenation must be accepted with exactly the concatenated pictures when all are accepted alone, and rejected with the earlier sequences' pictures delivered unchanged otherwise.",
+    "Seeded search over lists of 1-5 sequences drawn from different configurations (profile, version, level family, fragments, field coding, numbering), 'twin' lists (one configuration with mid-grey pictures and one thing changed per sequence) and, once in 8000 runs, sequences carrying 70 KB - 1.1 MB of padding, with an optional non-conformant sequence at a seeded position. Reference: each sequence validated alone by a fresh real validator. The concatenation must be accepted with exactly the concatenated pictures when all are accepted alone, and rejected with the earlier sequences' pictures delivered unchanged otherwise.",
     _B_NOTE,
 )
 
@@ -145,7 +145,7 @@ claim(
     "D (API-call histories, single node)",
     "DESIGN.md §7, §8 C27",
     "seeded operation-history search vs plain-dict reference model (single node, no scheduler) over every fixeddict type, incl. pickle and the worker-command transport",
-    "Seeded search over histories of construction, item assignment, setdefault, update and in-place merge (from mappings, pairs, keywords and fixed-entry dictionaries of other types), copy, delete and pickle round trips (pickle protocols 0-5 and the worker encode/decode transport) on every fixeddict type the library defines, with declared and undeclared keys; after every operation the key set must stay within the declared keys, undeclared keys must raise FixedDictKeyError, content must equal a plain-dict model, and copies/unpickled objects must be equal and of the same type.",
+    "Seeded search over histories of construction, item assignment, setdefault, update and in-place merge (from mappings, pairs, keywords and fixed-entry dictionaries of other types), copy, delete and pickle round trips (pickle protocols 0-5 and the worker encode/decode transport) on every fixeddict type the library defines and on instances of plain subclasses of them, with declared and undeclared keys and ordinary and exotic values; after every operation the key set must stay within the declared keys, undeclared keys must raise FixedDictKeyError, content must equal a plain-dict model, and copies/unpickled objects must be equal and of the same type.",
     _D_NOTE,
 )
 claim(
